@@ -468,6 +468,11 @@ class Gen:
                 e = self.expr(lt, depth - 1, False)
                 v = self.declare(self.pick_name(), lt, False)
                 body.append({"k": "let", "name": v.name, "bid": v.bid, "ann": None, "e": e})
+                if r.random() < 0.3:
+                    # a pure expression statement whose value is discarded
+                    st = self.final_expr(INT, max(1, depth - 1), False)
+                    if st["k"] not in ("int", "var"):
+                        body.append({"k": "expr", "e": st, "discarded": True})
         fin = self.final_expr(ty, depth, eff)
         body.append({"k": "expr", "e": fin})
         self.pop()
